@@ -227,3 +227,75 @@ Proof.
     rewrite (wdot_vadd_l OKR), (wdot_vadd_r OKR) by (rewrite !vscal_len; congruence).
     rewrite !(wdot_vscal_l OKR), !(wdot_vscal_r OKR). numR. ring.
 Qed.
+
+(* ---------------- the precondition of matrix_adjoint_partial is necessary ---------------- *)
+Definition unitv (n j : nat) : list R := add_at j 1 (zeros n).
+Lemma unitv_len n j : length (unitv n j) = n.
+Proof. unfold unitv. rewrite (add_at_len), zeros_len. reflexivity. Qed.
+Lemma dot_unitv (u : list R) j : (j < length u)%nat -> dot u (unitv (length u) j) = nth j u 0.
+Proof.
+  intros Hj. unfold unitv. rewrite (dot_add_at OKR) by (rewrite ?zeros_len; auto).
+  rewrite (dot_zeros_r OKR). numR. ring.
+Qed.
+Lemma vmul_assoc_R (a b c : list R) : vmul a (vmul b c) = vmul (vmul a b) c.
+Proof.
+  revert b c; induction a as [|x a IH]; intros [|y b] [|z c]; try reflexivity.
+  unfold vmul in *; cbn [vmap2]. rewrite IH. f_equal. numR. ring.
+Qed.
+Lemma wdot_as_dot (w u y : list R) : wdot w u y = dot (vmul w u) y.
+Proof. unfold wdot, dot. rewrite vmul_assoc_R. reflexivity. Qed.
+Lemma nth_vmul (a b : list R) i : (i < length a)%nat -> length a = length b ->
+  nth i (vmul a b) 0 = nth i a 0 * nth i b 0.
+Proof.
+  revert b i; induction a as [|x a IH]; intros [|y b] i Hi Hl; cbn in Hi, Hl; try lia; try discriminate.
+  destruct i as [|i]; [reflexivity|]. unfold vmul in *; cbn [vmap2 nth]. apply IH; lia.
+Qed.
+Lemma wdot_unitv (w u : list R) i : (i < length w)%nat -> length u = length w ->
+  wdot w u (unitv (length w) i) = nth i w 0 * nth i u 0.
+Proof.
+  intros Hi Hl. rewrite wdot_as_dot.
+  replace (length w) with (length (vmul w u)) by (apply vmul_len; congruence).
+  rewrite dot_unitv by (rewrite vmul_len; congruence). apply nth_vmul; congruence.
+Qed.
+Lemma nth_mvec_ones n m (x : list R) i : (i < m)%nat -> nth i (mvec (repeat (ones n) m) x) 0 = dot (ones n) x.
+Proof.
+  revert i; induction m as [|m IH]; intros i Hi; [lia|].
+  cbn [repeat]. rewrite (mvec_cons). destruct i; [reflexivity|]. cbn [nth]. apply IH; lia.
+Qed.
+Lemma nth_ones n j : (j < n)%nat -> nth j (@ones R _ n) 0 = 1.
+Proof. revert j; induction n; intros j Hj; [lia|]. destruct j; [reflexivity|]. cbn. apply IHn; lia. Qed.
+
+Lemma matrix_identity_forces_equal_weights (wd wr : list R) :
+  (forall x y, length x = length wd -> length y = length wr ->
+     cinner wr (eval_leaf (LMatrix wd wr (repeat (ones (length wd)) (length wr))) x) y =
+     cinner wd x (eval (leaf_adjoint (LMatrix wd wr (repeat (ones (length wd)) (length wr)))) y)) ->
+  forall i j, (i < length wr)%nat -> (j < length wd)%nat -> nth i wr 0 = nth j wd 0.
+Proof.
+  intros Hid i j Hi Hj. remember (length wd) as n eqn:En. remember (length wr) as m eqn:Em.
+  remember (repeat (ones n) m) as M eqn:EM.
+  assert (HM : rect n M) by (subst M; clear; induction m; constructor; [apply ones_len | assumption]).
+  assert (Hm : length M = m) by (subst M; apply repeat_length).
+  destruct (matrix_unweighted OKR n m M HM Hm) as (U1 & U2 & U3). rewrite !ones_len in U1, U2.
+  specialize (Hid (unitv n j) (unitv m i) (unitv_len n j) (unitv_len m i)).
+  cbn [eval_leaf leaf_adjoint eval] in Hid. rewrite <- En in Hid.
+  specialize (U3 (unitv n j) (unitv m i)). rewrite !ones_len in U3.
+  specialize (U3 (unitv_len n j) (unitv_len m i)).
+  rewrite !(cinner_ones OKR) in U3 by (rewrite ?mvec_len, ?unitv_len; auto).
+  rewrite !cinner_R in Hid. rewrite !vconj_R in U3.
+  assert (E1 : nth i (mvec M (unitv n j)) 0 = 1).
+  { subst M. rewrite nth_mvec_ones by assumption. rewrite <- (ones_len n) at 2.
+    rewrite dot_unitv by (rewrite ones_len; assumption). apply nth_ones; assumption. }
+  (* left side: wr_i * (M e_j)_i *)
+  rewrite Em in Hid at 1. rewrite wdot_unitv in Hid by (rewrite ?mvec_len; congruence).
+  rewrite E1 in Hid.
+  (* right side: wd_j * (P e_i)_j with (P e_i)_j = (M e_j)_i by the unweighted identity *)
+  rewrite (wdot_swap OKR) in Hid. rewrite En in Hid at 2.
+  rewrite wdot_unitv in Hid by (rewrite ?U2; rewrite ?unitv_len; congruence).
+  assert (E2 : nth j (mvec (conjT n M) (unitv m i)) 0 = 1).
+  { rewrite <- E1.
+    rewrite <- (dot_unitv (mvec (conjT n M) (unitv m i)) j) by (rewrite U2; rewrite ?unitv_len; auto).
+    rewrite U2 by apply unitv_len. rewrite (dot_comm OKR), <- U3.
+    replace m with (length (mvec M (unitv n j))) at 1 by (rewrite mvec_len; exact Hm).
+    apply dot_unitv. rewrite mvec_len, Hm. assumption. }
+  rewrite E2 in Hid. lra.
+Qed.
